@@ -159,6 +159,12 @@ func checkC10(tier, replay string) int {
 						scripts = append(scripts, tsyncScript{Phases: v, Flags: fl, LoaderMain: lm, NNP: true, Unpriv: true}, tsyncScript{Phases: v, Flags: fl, LoaderMain: lm, NNP: false, Unpriv: true})
 						// every auxiliary seccomp(2) operation (support probes) is refused by an outer filter, loads are not
 						scripts = append(scripts, tsyncScript{Phases: v, Flags: fl, LoaderMain: lm, NNP: true, OuterDenyAux: true})
+						// a kernel that does not know a flag bit yet (outer filter answering EINVAL to loads whose flag word has it):
+						// a refusal is expected when the word has the bit; whatever the library does about it, nil still means
+						// "this flag word reached the kernel, every thread covered if it asks for thread-sync"
+						for _, m := range []uint32{1, 2} {
+							scripts = append(scripts, tsyncScript{Phases: v, Flags: fl, LoaderMain: lm, NNP: true, OuterEINVAL: m})
+						}
 					}
 					if len(v) <= 2 {
 						// history: an earlier thread-sync load (policy B) covered everyone; the load under test must behave as its own
@@ -230,7 +236,7 @@ func checkC10(tier, replay string) int {
 			ctx.Violation("C10:load-panicked:"+key, "LoadFilter panicked: "+*rep.Err, sc)
 			return
 		}
-		if rep.Err != nil && (sc.Divergent || sc.OuterENOSYS || (sc.Unpriv && !sc.NNP)) {
+		if rep.Err != nil && (sc.Divergent || sc.OuterENOSYS || (sc.Unpriv && !sc.NNP) || sc.Flags&sc.OuterEINVAL != 0) {
 			atomic.AddInt64(&refused, 1)
 			return // refusal reported as an error: nothing to check
 		}
@@ -246,7 +252,7 @@ func checkC10(tier, replay string) int {
 		atomic.AddInt64(&spawnedDuring, rep.Spawned)
 		tsync := sc.Flags&1 != 0
 		base, baseMode := 0, 0 // filters every thread has from the history before the load under test
-		if sc.PriorSync || sc.OuterDenyAux {
+		if sc.PriorSync || sc.OuterDenyAux || sc.OuterEINVAL != 0 {
 			base, baseMode = 1, 2
 		}
 		for _, t := range rep.Threads {
@@ -267,7 +273,7 @@ func checkC10(tier, replay string) int {
 					ctx.Violation("C10:thread-not-covered:"+t.Phase, fmt.Sprintf("thread-sync load returned nil but thread %d (phase %s, /proc before load: %s, born after: %v) is not filtered: probe errno %d, Seccomp %d, filters %d; phases %v flags %d", t.Tid, t.Phase, t.PhaseSeen, t.BornAfter, t.ProbeErrno, t.Seccomp, t.Filters, sc.Phases, sc.Flags), sc)
 				}
 			} else if !t.BornAfter && !(sc.Divergent && t.Tid == rep.Threads[0].Tid) {
-				if t.NNP != t.NNPBefore && !sc.OuterENOSYS && !sc.OuterDenyAux {
+				if t.NNP != t.NNPBefore && !sc.OuterENOSYS && !sc.OuterDenyAux && sc.OuterEINVAL == 0 {
 					ctx.Violation("C10:other-thread-touched:nnp", fmt.Sprintf("load without thread-sync changed the no_new_privs bit of another thread (%d, phase %s): %d -> %d", t.Tid, t.Phase, t.NNPBefore, t.NNP), sc)
 				}
 				if t.ProbeErrno != 0 || t.Seccomp != baseMode || t.Filters != base {
@@ -321,7 +327,7 @@ func checkC10(tier, replay string) int {
 	ctx.Cov["short_lived_threads_spawned_while_loading"] = spawnedDuring
 	ctx.Cov["single_bit_flag_words_checked"] = bits
 	ctx.Cov["thread_sync_refusals_reported_as_error"] = refused
-	ctx.Cov["rule"] = "states = (vector of user-visible phases of N other OS threads at the moment of the load: spinning, in nanosleep, blocked in read, blocked in futex, spawning short-lived threads) x flags {0,tsync,log,tsync|log} x loader on main / non-main thread; every vector for N<=2 (quick) / N<=3 (thorough) and homogeneous + mixed vectors for N=8 (and 64 thorough); plus histories and environments for the small vectors (a preloaded filter, an earlier thread-sync load of another policy, a divergent thread, an outer filter answering ENOSYS to seccomp(2), an outer filter answering EPERM to every auxiliary seccomp(2) operation (support probes) but not to loads, a policy with LOG actions, the process running as uid 65534 with and without no_new_privs (without, a refusal is expected and nil is only acceptable with every thread covered), the whole process under the UNAME26 personality so that uname(2) reports release 2.6.x); each is run once on the real kernel through the real LoadFilter; after an atomic 'load returned' flag every thread (including three born afterwards) probes getppid and reads its own /proc status, and /proc/self/task is scanned; plus all 32 single-bit flag words observed at the syscall seam and, for the defined bits, in strace's decoding of seccomp(2)"
+	ctx.Cov["rule"] = "states = (vector of user-visible phases of N other OS threads at the moment of the load: spinning, in nanosleep, blocked in read, blocked in futex, spawning short-lived threads) x flags {0,tsync,log,tsync|log} x loader on main / non-main thread; every vector for N<=2 (quick) / N<=3 (thorough) and homogeneous + mixed vectors for N=8 (and 64 thorough); plus histories and environments for the small vectors (a preloaded filter, an earlier thread-sync load of another policy, a divergent thread, an outer filter answering ENOSYS to seccomp(2), an outer filter answering EPERM to every auxiliary seccomp(2) operation (support probes) but not to loads, an outer filter answering EINVAL to loads whose flag word has the thread-sync / the log bit (a kernel that does not know the bit), a policy with LOG actions, the process running as uid 65534 with and without no_new_privs (without, a refusal is expected and nil is only acceptable with every thread covered), the whole process under the UNAME26 personality so that uname(2) reports release 2.6.x); each is run once on the real kernel through the real LoadFilter; after an atomic 'load returned' flag every thread (including three born afterwards) probes getppid and reads its own /proc status, and /proc/self/task is scanned; plus all 32 single-bit flag words observed at the syscall seam and, for the defined bits, in strace's decoding of seccomp(2)"
 	ctx.Assumptions = []string{"the interleaving of seccomp(2) with other threads inside the kernel cannot be scheduled from user space; one run per phase vector", "phase of blocked threads is confirmed through /proc/<tid>/syscall immediately before the load is released"}
 	if replay != "" {
 		return finishReplay(ctx)
